@@ -116,8 +116,12 @@ def rule_identity(ctx):
     if ok:
         la = c.enclosing(app[0], types=(ast.For,), role="body")
         el = arg_of(app[0].ast, 0)
-        ok = bool(la) and unparse(la[0][0].iter) == f"{fi.params()[2]}.items()" and isinstance(el, ast.Tuple) and [unparse(x) for x in el.elts] == ["tp.partition", "offset.offset", "offset.metadata"] \
-            and unparse(app[0].ast.func.value) == "offset_data[tp.topic]"
+        tgt = la[0][0].target if la else None
+        ok = bool(la) and isinstance(tgt, ast.Tuple) and len(tgt.elts) == 2 and all(isinstance(x, ast.Name) for x in tgt.elts)
+        if ok:
+            tv, ov = tgt.elts[0].id, tgt.elts[1].id      # whatever the loop variables are called
+            ok = unparse(la[0][0].iter) == f"{fi.params()[2]}.items()" and isinstance(el, ast.Tuple) and [unparse(x) for x in el.elts] == [f"{tv}.partition", f"{ov}.offset", f"{ov}.metadata"] \
+                and unparse(app[0].ast.func.value) == f"offset_data[{tv}.topic]"
     ctx.ob(R, fi, fi.node, ok, "commit entries are not (partition, offset, metadata) of every given offset", text="entries")
     ctx.ob(R, fi, rq, "offset_data.items()" in a[-1], "request does not carry the collected entries", text="carries-entries")
 
@@ -168,4 +172,5 @@ def run(ctx):
     rule_prepare_order(ctx)
     rule_identity(ctx)
     rule_new_owner(ctx)
+    c03.rule_api_handout(ctx)      # the position has moved: a raise after the hand-out loses records the next commit covers
     rep.nd("the group-wide at-least-once consequence across crashes (needs histories)")
